@@ -260,6 +260,7 @@ func runC17(cfg Config) {
 			}
 		}
 	}
+	runPoolTraces(cfg, rep, []string{"VerifyIndex"}, cfg.N(300, 6000), 17)
 	c17CLI(cfg, rep, rng)
 	rep.Write(cfg.Out)
 }
